@@ -494,3 +494,24 @@ func zzC01URRRecreated() {
 }
 
 func ZZ_C01_URRRecreated() { zzC01URRRecreated() }
+
+// Two control-plane nodes, both associated, each establishing a session - their control-plane SEIDs
+// are the solver's and may coincide, a CP SEID being unique per node only - then one of them answers
+// a report with SEID 0: the session that ends, and whose rules are withdrawn, is the one of that node
+// with that CP SEID, and nobody else's rule is touched. (The same three steps are part of the 4-step
+// histories of the thorough tier; this entry puts them into the quick tier.)
+func zzC01TwoNodesSeid0() {
+	w := zzNewWorld(zzFAR, false)
+	for n := 0; n < 2; n++ {
+		w.g.assoc[n] = true
+		seq := w.nextSeq()
+		zzDeliver(w.s, zzAssocReq(seq, zzNodeID(n)), w.addr(n), seq)
+	}
+	w.newResponses()
+	w.stepEstablish()
+	w.stepEstablish()
+	w.stepReportRsp()
+	zzCover("C01.two-nodes-seid0.done")
+}
+
+func ZZ_C01_TwoNodesSeid0() { zzC01TwoNodesSeid0() }
